@@ -114,6 +114,26 @@ pub fn type_name(s: &Src, def: Option<&Def>, defs: &[Def]) -> String {
     }
 }
 
+/// the identity scale-info interns by: Box erased everywhere, VecDeque = Vec
+pub fn canon(s: &Src) -> Src {
+    let c = |x: &Src| Box::new(canon(x));
+    match s {
+        Src::BoxT(a) => canon(a),
+        Src::VecDeque(a) | Src::Vec(a) => Src::Vec(c(a)),
+        Src::App(d, a) => Src::App(*d, a.iter().map(canon).collect()),
+        Src::Tuple(a) => Src::Tuple(a.iter().map(canon).collect()),
+        Src::Array(n, a) => Src::Array(*n, c(a)),
+        Src::Compact(a) => Src::Compact(c(a)),
+        Src::Opt(a) => Src::Opt(c(a)),
+        Src::Res(a, b) => Src::Res(c(a), c(b)),
+        Src::BTreeMap(a, b) => Src::BTreeMap(c(a), c(b)),
+        Src::BTreeSet(a) => Src::BTreeSet(c(a)),
+        Src::Cow(a) => Src::Cow(c(a)),
+        Src::Range(a) => Src::Range(c(a)),
+        other => other.clone(),
+    }
+}
+
 pub struct Interner<'a> {
     defs: &'a [Def],
     ids: HashMap<String, u32>,
@@ -169,7 +189,8 @@ impl<'a> Interner<'a> {
         if let Src::BoxT(a) = s {
             return self.intern(a);
         }
-        let key = format!("{:?}", s);
+        // scale-info identifies types by TypeId: Box is transparent and VecDeque<T> is [T]
+        let key = format!("{:?}", canon(s));
         let id = match self.alloc(key) {
             Ok(id) => id,
             Err(id) => return id,
